@@ -6,16 +6,17 @@ Mutants are catalogued in mutants/<ID>.json: [{"name","file","find","replace","e
 import json, os, subprocess, sys
 REPO=os.environ.get("VERIF_REPO","/repo"); VERIF=os.path.dirname(os.path.abspath(__file__))
 def run_one(pid, m, tier="quick", run_tests=False):
-    path=os.path.join(REPO,m["file"]); src=open(path).read()
     edits=m.get("edits") or [{"find":m["find"],"replace":m["replace"]}]
-    new=src
+    srcs={}; news={}
     for e in edits:
-        if new.count(e["find"])!=1:
-            print("MUTANT %s: find string occurs %d times: %r"%(m["name"],new.count(e["find"]),e["find"][:60])); return None
-        new=new.replace(e["find"],e["replace"])
+        path=os.path.join(REPO,e.get("file") or m["file"])
+        if path not in srcs: srcs[path]=open(path).read(); news[path]=srcs[path]
+        if news[path].count(e["find"])!=1:
+            print("MUTANT %s: find string occurs %d times: %r"%(m["name"],news[path].count(e["find"]),e["find"][:60])); return None
+        news[path]=news[path].replace(e["find"],e["replace"])
     res={}
     try:
-        open(path,"w").write(new)
+        for path in news: open(path,"w").write(news[path])
         if run_tests:
             env=dict(os.environ,GOFLAGS="-mod=mod",GOPROXY="off")
             r=subprocess.run(["go","test","-vet=off","-count=1","./"+os.path.dirname(m["file"])+"/..."],cwd=REPO,env=env,capture_output=True,text=True)
@@ -28,7 +29,7 @@ def run_one(pid, m, tier="quick", run_tests=False):
         res["summary"]=[l for l in r.stdout.splitlines() if l.startswith(pid)]
         if r.returncode==2: res["stderr"]=r.stderr[-1500:]
     finally:
-        open(path,"w").write(src)
+        for path in srcs: open(path,"w").write(srcs[path])
     return res
 if __name__=="__main__":
     if sys.argv[1]=="--catalog":
